@@ -159,9 +159,20 @@ InA(p) == p \in {"A", "Aall"}
 InAnyB(p) == p \in {"first", "all", "Aall"}
 InEveryB(p, n) == p \in {"all", "Aall"} \/ (p = "first" /\ n = 1)
 InB(p, i) == p \in {"all", "Aall"} \/ (p = "first" /\ i = 1)
+(* amount magnitudes: "unit" = 100 a transaction, "big" = 30 000 000 a transaction (sums beyond 2^31 cents and
+   beyond the point where a binary float still resolves 0.01 with an absolute tolerance), "bigcent" = big, and
+   where two amounts differ they differ by exactly 0,01                                                        *)
+Mags == {"unit", "big", "bigcent"}
+Each(mag) == IF mag = "unit" THEN 100 ELSE 30000000
+EachStr(mag) == ToString(Each(mag))
+\* the total of n transactions, exact or missed by k units (by one cent for "bigcent")
+TotalStr(mag, n, exact, k) == IF exact THEN ToString(Each(mag) * n)
+                              ELSE IF mag = "bigcent" THEN ToString(Each(mag) * n) \o ".01" ELSE ToString(Each(mag) * n + k)
+\* an amount other than one transaction's
+OtherStr(mag) == IF mag = "unit" THEN "90" ELSE IF mag = "big" THEN "29999990" ELSE ToString(Each(mag)) \o ".01"
 Base107 == [ntx |-> 1, e23 |-> "A", cr |-> "A", f21E |-> "none", f26T |-> "none", f77B |-> "none", f71A |-> "none",
             f52 |-> "none", ip |-> "none", code |-> "AUTH", info |-> FALSE, f72 |-> FALSE,
-            chB |-> FALSE, chC |-> FALSE, f33 |-> "none", f36 |-> FALSE, sumok |-> TRUE, cur2 |-> "same"]
+            chB |-> FALSE, chC |-> FALSE, f33 |-> "none", f36 |-> FALSE, sumok |-> TRUE, cur2 |-> "same", mag |-> "unit"]
 Facts107 ==
      {[Base107 EXCEPT !.ntx = n, !.e23 = a, !.cr = b] : n \in {1, 2}, a, b \in Place}
   \cup {[Base107 EXCEPT !.ntx = 2, !.f21E = a, !.cr = b] : a \in {"none", "A", "first", "all", "Aall"}, b \in {"A", "all", "first"}}
@@ -171,6 +182,8 @@ Facts107 ==
   \cup {[Base107 EXCEPT !.chB = a, !.chC = b] : a, b \in BOOLEAN}
   \cup {[Base107 EXCEPT !.f33 = a, !.f36 = b] : a \in {"none", "same", "diffcur", "diffamt"}, b \in BOOLEAN}
   \cup {[Base107 EXCEPT !.ntx = n, !.sumok = a, !.cur2 = b] : n \in {2, 3}, a \in BOOLEAN, b \in {"same", "diff", "lastdiff"}}
+  \cup {[Base107 EXCEPT !.ntx = n, !.sumok = a, !.mag = m] : n \in {2, 3}, a \in BOOLEAN, m \in Mags}
+  \cup {[Base107 EXCEPT !.f33 = a, !.f36 = b, !.mag = m] : a \in {"none", "same", "diffcur", "diffamt"}, b \in BOOLEAN, m \in Mags}
 Expected107(f) ==
      (IF (InA(f.e23) /\ InAnyB(f.e23)) \/ (~InA(f.e23) /\ ~InEveryB(f.e23, f.ntx))
          \/ (InA(f.cr) /\ InAnyB(f.cr)) \/ (~InA(f.cr) /\ ~InEveryB(f.cr, f.ntx)) THEN {"D86"} ELSE {})
@@ -190,11 +203,11 @@ Expected107(f) ==
 Opt107(p, tok, inA, i) == IF (inA /\ InA(p)) \/ (~inA /\ InB(p, i)) THEN <<tok>> ELSE <<>>
 Tx107(f, i) ==
   <<"21">> \o Opt107(f.e23, "23E=" \o f.code \o (IF f.info THEN "/INFO" ELSE ""), FALSE, i) \o Opt107(f.f21E, "21E", FALSE, i)
-  \o <<"32B=" \o (IF Deviates(f.cur2, i, f.ntx) THEN "EUR" ELSE "USD") \o ":100">>
+  \o <<"32B=" \o (IF Deviates(f.cur2, i, f.ntx) THEN "EUR" ELSE "USD") \o ":" \o EachStr(f.mag)>>
   \o Opt107(f.ip, "50C", FALSE, i) \o Opt107(f.cr, "50K", FALSE, i) \o Opt107(f.f52, "52A", FALSE, i)
   \o <<"59=acct">> \o Opt107(f.f26T, "26T", FALSE, i) \o Opt107(f.f77B, "77B", FALSE, i)
-  \o (IF i = 1 /\ f.f33 = "same" THEN <<"33B=USD:100">> ELSE IF i = 1 /\ f.f33 = "diffcur" THEN <<"33B=EUR:90">>
-      ELSE IF i = 1 /\ f.f33 = "diffamt" THEN <<"33B=USD:90">> ELSE <<>>)
+  \o (IF i = 1 /\ f.f33 = "same" THEN <<"33B=USD:" \o EachStr(f.mag)>> ELSE IF i = 1 /\ f.f33 = "diffcur" THEN <<"33B=EUR:90">>
+      ELSE IF i = 1 /\ f.f33 = "diffamt" THEN <<"33B=USD:" \o OtherStr(f.mag)>> ELSE <<>>)
   \o Opt107(f.f71A, "71A=SHA", FALSE, i)
   \o (IF f.chB THEN <<"71F=USD:1", "71G=USD:1">> ELSE <<>>)
   \o (IF i = 1 /\ f.f36 THEN <<"36">> ELSE <<>>)
@@ -204,7 +217,7 @@ Build107(f) ==
   \o Opt107(f.f26T, "26T", TRUE, 0) \o Opt107(f.f77B, "77B", TRUE, 0) \o Opt107(f.f71A, "71A=SHA", TRUE, 0)
   \o (IF f.f72 THEN <<"72">> ELSE <<>>)
   \o Tx107(f, 1) \o (IF f.ntx >= 2 THEN Tx107(f, 2) ELSE <<>>) \o (IF f.ntx >= 3 THEN Tx107(f, 3) ELSE <<>>)
-  \o <<"32B=USD:" \o (IF f.sumok THEN ToString(100 * f.ntx) ELSE ToString(100 * f.ntx + 7))>>
+  \o <<"32B=USD:" \o TotalStr(f.mag, f.ntx, f.sumok, 7)>>
   \o (IF f.chC THEN <<"71F=USD:" \o ToString(f.ntx), "71G=USD:" \o ToString(f.ntx)>> ELSE <<>>)
 
 (* ================================ MT104 ================================== *)
@@ -213,7 +226,7 @@ Build107(f) ==
 Base104 == [ntx |-> 1, e23 |-> "A", codeA |-> "AUTH", codeB |-> "AUTH", info |-> FALSE, cr |-> "A", f21E |-> "none",
             f26T |-> "none", f77B |-> "none", f71A |-> "none", f52 |-> "none", ip |-> "none", f72 |-> FALSE, f21R |-> FALSE,
             seqC |-> TRUE, chB |-> FALSE, chC |-> FALSE, f33 |-> "none", f36 |-> FALSE, sumok |-> TRUE, cur2 |-> "same",
-            f19 |-> "none"]
+            f19 |-> "none", mag |-> "unit"]
 Facts104 ==
      {[Base104 EXCEPT !.ntx = n, !.e23 = a, !.codeA = c, !.cr = b, !.seqC = d, !.f21R = r] :
          n \in {1, 2}, a, b \in Place, c \in {"AUTH", "RFDD"}, d, r \in BOOLEAN}
@@ -227,6 +240,8 @@ Facts104 ==
   \cup {[Base104 EXCEPT !.chB = a, !.chC = b, !.seqC = c] : a, b, c \in BOOLEAN}
   \cup {[Base104 EXCEPT !.f33 = a, !.f36 = b] : a \in {"none", "same", "diffcur", "diffamt"}, b \in BOOLEAN}
   \cup {[Base104 EXCEPT !.ntx = n, !.sumok = a, !.cur2 = b, !.f19 = c] : n \in {2, 3}, a \in BOOLEAN, b \in {"same", "diff", "lastdiff"}, c \in {"none", "ok", "bad"}}
+  \cup {[Base104 EXCEPT !.ntx = n, !.sumok = a, !.f19 = c, !.mag = m] : n \in {2, 3}, a \in BOOLEAN, c \in {"none", "ok", "bad"}, m \in Mags}
+  \cup {[Base104 EXCEPT !.f33 = a, !.f36 = b, !.mag = m] : a \in {"none", "same", "diffcur", "diffamt"}, b \in BOOLEAN, m \in Mags}
 Expected104(f) ==
   LET a23 == InA(f.e23)
       rfdd == a23 /\ f.codeA = "RFDD"
@@ -250,11 +265,11 @@ Expected104(f) ==
   \cup (IF f.info /\ ((a23 /\ f.codeA # "OTHR") \/ (InAnyB(f.e23) /\ f.codeB # "OTHR")) THEN {"D81"} ELSE {})
 Tx104(f, i) ==
   <<"21">> \o Opt107(f.e23, "23E=" \o f.codeB \o (IF f.info THEN "/INFO" ELSE ""), FALSE, i) \o Opt107(f.f21E, "21E", FALSE, i)
-  \o <<"32B=" \o (IF Deviates(f.cur2, i, f.ntx) THEN "EUR" ELSE "USD") \o ":100">>
+  \o <<"32B=" \o (IF Deviates(f.cur2, i, f.ntx) THEN "EUR" ELSE "USD") \o ":" \o EachStr(f.mag)>>
   \o Opt107(f.ip, "50C", FALSE, i) \o Opt107(f.cr, "50K", FALSE, i) \o Opt107(f.f52, "52A", FALSE, i)
   \o <<"59=acct">> \o Opt107(f.f26T, "26T", FALSE, i) \o Opt107(f.f77B, "77B", FALSE, i)
-  \o (IF i = 1 /\ f.f33 = "same" THEN <<"33B=USD:100">> ELSE IF i = 1 /\ f.f33 = "diffcur" THEN <<"33B=EUR:90">>
-      ELSE IF i = 1 /\ f.f33 = "diffamt" THEN <<"33B=USD:90">> ELSE <<>>)
+  \o (IF i = 1 /\ f.f33 = "same" THEN <<"33B=USD:" \o EachStr(f.mag)>> ELSE IF i = 1 /\ f.f33 = "diffcur" THEN <<"33B=EUR:90">>
+      ELSE IF i = 1 /\ f.f33 = "diffamt" THEN <<"33B=USD:" \o OtherStr(f.mag)>> ELSE <<>>)
   \o Opt107(f.f71A, "71A=SHA", FALSE, i)
   \o (IF f.chB THEN <<"71F=USD:1", "71G=USD:1">> ELSE <<>>)
   \o (IF i = 1 /\ f.f36 THEN <<"36">> ELSE <<>>)
@@ -266,8 +281,9 @@ Build104(f) ==
   \o (IF f.f72 THEN <<"72">> ELSE <<>>)
   \o Tx104(f, 1) \o (IF f.ntx >= 2 THEN Tx104(f, 2) ELSE <<>>) \o (IF f.ntx >= 3 THEN Tx104(f, 3) ELSE <<>>)
   \o (IF f.seqC
-      THEN <<"32B=USD:" \o (IF f.sumok THEN ToString(100 * f.ntx) ELSE ToString(100 * f.ntx + 7))>>
-           \o (IF f.f19 = "ok" THEN <<"19=" \o ToString(100 * f.ntx)>> ELSE IF f.f19 = "bad" THEN <<"19=" \o ToString(100 * f.ntx + 3)>> ELSE <<>>)
+      THEN <<"32B=USD:" \o TotalStr(f.mag, f.ntx, f.sumok, 7)>>
+           \o (IF f.f19 = "ok" THEN <<"19=" \o TotalStr(f.mag, f.ntx, TRUE, 0)>>
+               ELSE IF f.f19 = "bad" THEN <<"19=" \o TotalStr(f.mag, f.ntx, FALSE, 3)>> ELSE <<>>)
            \o (IF f.chC THEN <<"71F=USD:1", "71G=USD:1">> ELSE <<>>)
       ELSE <<>>)
 
@@ -291,10 +307,10 @@ Expected205(f) == IF f.a56 /\ ~f.a57 THEN {"C81"} ELSE {}
 Build205(f) == <<"20", "21", "32A=USD:1000">> \o (IF f.a56 THEN <<"56A">> ELSE <<>>) \o (IF f.a57 THEN <<"57A">> ELSE <<>>) \o <<"58A">>
 
 (* ================================ MT204 ================================== *)
-Facts204 == {[n |-> n, sum |-> s, cur2 |-> c] : n \in {1, 2, 3, 4, 10}, s \in BOOLEAN, c \in {"same", "diff", "lastdiff"}}
+Facts204 == {[n |-> n, sum |-> s, cur2 |-> c, mag |-> m] : n \in {1, 2, 3, 4, 10}, s \in BOOLEAN, c \in {"same", "diff", "lastdiff"}, m \in Mags}
 Expected204(f) == (IF ~f.sum THEN {"C01"} ELSE {}) \cup (IF f.n >= 2 /\ f.cur2 # "same" THEN {"C02"} ELSE {})
-Build204(f) == <<"19=" \o (IF f.sum THEN ToString(100 * f.n) ELSE ToString(100 * f.n + 1)), "20", "30">>
-               \o Cat([i \in 1..f.n |-> <<"20", "32B=" \o (IF Deviates(f.cur2, i, f.n) THEN "EUR" ELSE "USD") \o ":100">>])
+Build204(f) == <<"19=" \o TotalStr(f.mag, f.n, f.sum, 1), "20", "30">>
+               \o Cat([i \in 1..f.n |-> <<"20", "32B=" \o (IF Deviates(f.cur2, i, f.n) THEN "EUR" ELSE "USD") \o ":" \o EachStr(f.mag)>>])
 
 (* ================================ MT210 ================================== *)
 Party210 == {"none", "50", "52", "both"}
